@@ -91,12 +91,9 @@ def run(ck: Check):
                     ck.violation(dict(clause="lambda-antitone", detector=det.name), dict(detector=det.name, config=cfg, lambda_raised=cfg3["lambda_"], stream=xs[: t + 1]))
                     break
     models = run_models("C07", cases)
-    for (det, cfg, ops, _), im, mo in zip(cases, impl, models):
-        ck.corr_cases += 1
-        d = compare_traces(im, mo)
-        if d is not None:
-            ck.mismatch(f"Model/Cusum.v vs {det.name}", dict(detector=det.name, config=cfg, stream=ops[: d[0] + 1], step=d[0], diff=d[1]))
+    from detectors import corr_compare
 
+    corr_compare(ck, "C07", cases, impl, models)
 
 def main(tier, seed):
     ck = Check("C07", tier, seed)
